@@ -4,8 +4,10 @@ package node
 
 import (
 	"context"
+	"errors"
 	"fmt"
 	mrand "math/rand"
+	"net"
 	"runtime"
 	"sort"
 	"strings"
@@ -16,6 +18,7 @@ import (
 
 	"github.com/alicebob/miniredis/v2"
 	"github.com/anishathalye/porcupine"
+	goredis "github.com/redis/go-redis/v9"
 
 	"tunnox-core/internal/core/storage"
 	"tunnox-core/internal/core/storage/memory"
@@ -119,7 +122,66 @@ func (c *c15nCluster) setHook(h vk.Hook) {
 	}
 }
 
-func c15nNewCluster(backend string, nodes int, st *c15nStats, written func(tier, op, key string)) (*c15nCluster, error) {
+// c15nRedisFault is a go-redis hook on every Redis client (BELOW the repository's
+// redis.Storage): a seeded fraction of SET-if-absent commands fails with a
+// transport-style error, half before the command is sent, half after the server applied
+// it (lost reply).
+type c15nRedisFault struct {
+	mu       sync.Mutex
+	r        *mrand.Rand
+	perMille atomic.Int64
+	before   atomic.Int64
+	after    atomic.Int64
+}
+
+func (f *c15nRedisFault) DialHook(next goredis.DialHook) goredis.DialHook {
+	return func(ctx context.Context, network, addr string) (net.Conn, error) { return next(ctx, network, addr) }
+}
+func (f *c15nRedisFault) ProcessPipelineHook(next goredis.ProcessPipelineHook) goredis.ProcessPipelineHook {
+	return next
+}
+func (f *c15nRedisFault) ProcessHook(next goredis.ProcessHook) goredis.ProcessHook {
+	return func(ctx context.Context, cmd goredis.Cmder) error {
+		pm := int(f.perMille.Load())
+		if pm == 0 || !c15nIsSetNX(cmd) {
+			return next(ctx, cmd)
+		}
+		f.mu.Lock()
+		x := f.r.Intn(1000)
+		early := f.r.Intn(2) == 0
+		f.mu.Unlock()
+		if x >= pm {
+			return next(ctx, cmd)
+		}
+		if early {
+			f.before.Add(1)
+			err := errors.New("verif: write tcp 10.0.0.2:51234->10.0.0.9:6379: connection reset (command not sent)")
+			cmd.SetErr(err)
+			return err
+		}
+		_ = next(ctx, cmd)
+		f.after.Add(1)
+		err := errors.New("verif: read tcp 10.0.0.2:51234->10.0.0.9:6379: i/o timeout (reply lost)")
+		cmd.SetErr(err)
+		return err
+	}
+}
+
+func c15nIsSetNX(cmd goredis.Cmder) bool {
+	switch strings.ToLower(cmd.Name()) {
+	case "setnx":
+		return true
+	case "set":
+		for _, a := range cmd.Args() {
+			if s, ok := a.(string); ok && strings.EqualFold(s, "nx") {
+				return true
+			}
+		}
+	}
+	return false
+}
+
+func c15nNewCluster(backend string, nodes int, st *c15nStats, written func(tier, op, key string), rf *c15nRedisFault) (*c15nCluster, error) {
 	ctx, cancel := context.WithCancel(context.Background())
 	c := &c15nCluster{backend: backend, cancel: cancel}
 	gate := func(tier string, in types.FullStorage) *vk.Gated {
@@ -128,7 +190,11 @@ func c15nNewCluster(backend string, nodes int, st *c15nStats, written func(tier,
 		return g
 	}
 	newRedis := func() (*storage.RedisStorage, error) {
-		return storage.NewRedisStorage(ctx, &storage.RedisConfig{Addr: c.mr.Addr(), PoolSize: 3})
+		rs, err := storage.NewRedisStorage(ctx, &storage.RedisConfig{Addr: c.mr.Addr(), PoolSize: 3})
+		if err == nil && rf != nil {
+			rs.Client().AddHook(rf)
+		}
+		return rs, err
 	}
 	fail := func(err error) (*c15nCluster, error) { c.close(); return nil, err }
 	switch backend {
@@ -335,7 +401,8 @@ type c15nCase struct {
 func c15nSlot(i int) string { return fmt.Sprintf("node-%04d", i) }
 
 func c15nRunCase(t *testing.T, run *vk.Run, cs c15nCase, fam *c15nStats) bool {
-	cl, err := c15nNewCluster(cs.Backend, cs.N, fam, nil)
+	rf := &c15nRedisFault{r: mrand.New(mrand.NewSource(cs.Sub ^ 0x4ed15))}
+	cl, err := c15nNewCluster(cs.Backend, cs.N, fam, nil, rf)
 	if err != nil {
 		t.Fatalf("c15: cluster %s: %v", cs.Backend, err)
 	}
@@ -378,7 +445,13 @@ func c15nRunCase(t *testing.T, run *vk.Run, cs c15nCase, fam *c15nStats) bool {
 	run.Count("preoccupied_slots", int64(len(occ)))
 	var injected atomic.Int64
 	cl.setHook(c15nYieldHook(mrand.New(mrand.NewSource(cs.Sub^0x1e1d)), cs.Fault, &injected))
-	defer func() { run.Count("faults_injected", injected.Load()) }()
+	rf.perMille.Store(int64(cs.Fault)) // armed only after the slots above were pre-occupied
+	defer func() {
+		rf.perMille.Store(0)
+		run.Count("faults_injected", injected.Load())
+		run.Count("redis_setnx_failed_before_apply", rf.before.Load())
+		run.Count("redis_setnx_reply_lost_after_apply", rf.after.Load())
+	}()
 
 	sigTail := fmt.Sprintf("backend=%s", cs.Backend)
 	sequential := cs.Backend == "no-setnx"
@@ -515,7 +588,7 @@ func TestVerifC15NodeAlloc(t *testing.T) {
 	vk.Quiet()
 	run := vk.Start(t, "C15", "node-alloc")
 	defer run.Finish()
-	run.Rule("case = (backend in memory/redis(miniredis)/hybrid+shared redis/hybrid local/no-SetNX double (sequential), N in {2,4,8} concurrent NodeIDAllocators each on its own storage client, pre-occupied slots none/prefix/all-but-one/all 1000 marked through the allocator's own acquisition path, hold/release pattern; an allocator whose allocation failed is asked for GetNodeID and Released, then allocation continues); random yields at every storage operation, every second case with storage faults injected before 0.2-2.5% of the slot-key operations; distinct = (backend,N,preseed,faults on/off)")
+	run.Rule("case = (backend in memory/redis(miniredis)/hybrid+shared redis/hybrid local/no-SetNX double (sequential), N in {2,4,8} concurrent NodeIDAllocators each on its own storage client, pre-occupied slots none/prefix/all-but-one/all 1000 marked through the allocator's own acquisition path, hold/release pattern; an allocator whose allocation failed is asked for GetNodeID and Released, then allocation continues); random yields at every storage operation, every second case with storage faults injected before 0.2-2.5% of the slot-key operations and, on the Redis-backed stores, transport errors injected below the Redis storage on SET-NX commands (command not sent / reply lost after it was applied); distinct = (backend,N,preseed,faults on/off)")
 	r := run.Rand("cases")
 	reps := run.Pick(4, 30)
 	pre := []string{"none", "prefix", "all-but-one", "all"}
@@ -577,6 +650,8 @@ func TestVerifC15NodeAlloc(t *testing.T) {
 	run.Floor("release_ok", 50)
 	run.Floor("faults_injected", 200)
 	run.Floor("release_after_failed_allocate", 20)
+	run.Floor("redis_setnx_failed_before_apply", 20)
+	run.Floor("redis_setnx_reply_lost_after_apply", 20)
 }
 
 // ---------------------------------------------------------------- lease over time
@@ -625,7 +700,7 @@ func TestVerifC15NodeLease(t *testing.T) {
 					case beat <- struct{}{}:
 					default:
 					}
-				})
+				}, nil)
 				if err != nil {
 					t.Errorf("c15: lease cluster: %v", err)
 					return
